@@ -68,6 +68,8 @@ pub struct SimErr {
 }
 
 pub struct SimActor {
+    /// identity reported by the reference handed to on_start; every later hook must see the same
+    pub ident: rsactor::Identity,
     pub idx: usize,
     pub world: Arc<World>,
     pub st: ActorState,
@@ -334,8 +336,15 @@ impl SimActor {
         }
     }
 
+    fn check_ident(&self, seen: rsactor::Identity, hook: &str) {
+        if seen != self.ident {
+            self.rec().rec(K::Anomaly { prop: "C11", what: format!("actor {}: the reference passed to {hook} reports {seen}, on_start was given {}", self.idx, self.ident) });
+        }
+    }
+
     async fn handle_common(&mut self, msg: Msg, r: &ActorRef<SimActor>) -> Rep {
         let a = self.idx;
+        self.check_ident(r.identity(), "a handler");
         self.rec().rec(K::HBegin { a, mid: msg.id, ty: msg.ty });
         self.st.handled.push(msg.id);
         let t0 = std::time::Instant::now();
@@ -435,7 +444,7 @@ impl Actor for SimActor {
     async fn on_start(args: Self::Args, actor_ref: &ActorRef<Self>) -> Result<Self, SimErr> {
         let (idx, world) = args;
         world.rec.rec(K::StartBegin { a: idx });
-        let mut me = SimActor { idx, world: world.clone(), st: ActorState::default(), kept: vec![] };
+        let mut me = SimActor { ident: actor_ref.identity(), idx, world: world.clone(), st: ActorState::default(), kept: vec![] };
         let hook = world.specs[idx].start.clone();
         me.run_steps(&hook.steps, HookId::Start, &Me::Strong(actor_ref)).await;
         match hook.out {
@@ -463,6 +472,7 @@ impl Actor for SimActor {
         let fut = async move {
             let inv = self.st.run_invocations;
             self.st.run_invocations += 1;
+            self.check_ident(actor_weak.identity(), "on_run");
             let world = self.world.clone();
             world.rec.rec(K::RunBegin { a, inv });
             if world.rec.overflowed() {
@@ -512,6 +522,7 @@ impl Actor for SimActor {
         let a = self.idx;
         let world = self.world.clone();
         world.rec.rec(K::StopBegin { a, killed });
+        self.check_ident(actor_weak.identity(), "on_stop");
         if self.st.stop_seen.is_some() {
             world.rec.rec(K::Anomaly { prop: "C04", what: format!("on_stop invoked twice on actor {a}") });
         }
